@@ -49,6 +49,8 @@ pub struct Knobs {
     pub check: CheckAns,
     pub timing_min_wait: Option<std::time::Duration>,
     pub other_seen: usize,
+    /// (clock read number, mono jump ns, wall jump ns): applied just before that read
+    pub clock_jump: Option<(u64, i128, i128)>,
 }
 
 impl Default for Knobs {
@@ -71,6 +73,7 @@ impl Default for Knobs {
             check: CheckAns::Ok(Params::default_for(Src::Scheduled)),
             timing_min_wait: None,
             other_seen: 0,
+            clock_jump: None,
         }
     }
 }
@@ -195,6 +198,16 @@ impl Director for HistDirector {
     }
     fn reboot_allowed(&mut self, _w: &mut Inner, _o: Src) -> bool {
         self.knobs.lock().unwrap().reboot_allowed
+    }
+    fn before_clock_read(&mut self, w: &mut Inner) {
+        let mut k = self.knobs.lock().unwrap();
+        if let Some((n, dm, dw)) = k.clock_jump {
+            if w.clock.reads + 1 == n {
+                w.clock.mono += dm;
+                w.clock.wall += dw;
+                k.clock_jump = None;
+            }
+        }
     }
 }
 
@@ -357,8 +370,11 @@ pub fn present_after_rebuild(setup: &Setup, snapshot: &std::collections::BTreeMa
             HttpAns::Transport
         }
     }
+    let outer = swap_current_world(None);
     let mut e = Exec::new(s, Box::new(Quiet), Store::with(snapshot.clone()));
     let _ = e.run_auto(200, |w| w.log.iter().any(|o| matches!(o, Obs::ComputeNext { .. })));
+    swap_current_world(outer);
+    install_seams(setup.select, setup.jitter_menu.clone());
     let g = e.w.lock().unwrap();
     g.log.iter().find_map(|o| match o {
         Obs::ComputeNext { apps, sched, state, .. } => Some((*sched, *state, apps.clone())),
